@@ -29,8 +29,7 @@ LEVEL_NOTE = ('Quadratic/cubic interpolation are scipy splines: not modelled, co
               'Decimal unit factors (1e-3 ...) are exact rationals in the model; where one enters, floats are compared to '
               '1e-12 relative (scaled by the conditioning of the operator) and grid points within 1e-9 of an operand range end '
               'are not compared (the specification is discontinuous there); numpy.power is a vectorised approximation and is '
-              'compared to 1e-13. Known findings: a two-element fill_value is refused unless the grid has two points '
-              '(C13-fill-pair); in floating point a unit conversion can add one sample when range/sampling is an integer '
+              'compared to 1e-13. Known finding: in floating point a unit conversion can add one sample when range/sampling is an integer '
               '(C13-float-sample-count). Products/powers of two density-valued spectra are not unit-covariant and not claimed. '
               'Operand immutability and "new object" are checked on the implementation only (trivial in a pure model); '
               'reflected forms other than __rmul__ do not exist (TypeError), which the property does not pin.')
@@ -48,11 +47,6 @@ RULE = ('corpus first; random pairs of spectra with identical / nested / overlap
         'non-uniform grids (1..8 samples), 5 operators, sampling min/left/right/numeric, fill scalar/pair, dunder and method '
         'calls, all 16 unit pairs, value units; plus scalar, vector (equal, length-1, unequal), unsupported operands, reflected '
         'forms, sample() with a foreign unit, constructor refusals; non-trivial = the operand grids differ; distinct by hash')
-
-# flip to True only if proposed_fixes/c13-fill-pair.patch has been applied to /repo: the model is then run with fx = true
-PAIR_FILL_FIXED = True
-if __import__('os').environ.get('VERIF_C13_PAIR_FIXED') == '1':     # development-time override used with VERIF_REPO
-    PAIR_FILL_FIXED = True
 
 UNITS = ['m', 'um', 'nm', 'angstrom']
 VUNITS = [None, 'photlam', 'flam', 'wlam']
@@ -83,15 +77,39 @@ def fl(x):
 
 
 # ------------------------------------------------------------------ implementation side
-def mk(sd):
+INT_DTYPES = ('int64', 'int32', 'int16', 'uint8', 'bool')
+
+
+def cast(xs, dt):
+    """the numbers xs (Fraction strings) stored the way the case asks for: a float64 array (default), an array of
+    another dtype, or a plain Python list / tuple (ints when all numbers are integers)"""
+    q = [F(x) for x in xs]
+    if dt in (None, 'float64'):
+        return np.array([float(x) for x in q], dtype=float)
+    if dt in ('pylist', 'pytuple'):
+        seq = [int(x) for x in q] if all(x.denominator == 1 for x in q) else [float(x) for x in q]
+        return seq if dt == 'pylist' else tuple(seq)
+    if dt in INT_DTYPES:
+        return np.array([int(x) for x in q], dtype=dt)
+    return np.array([float(x) for x in q], dtype=dt)      # float32
+
+
+def mk(sd, plain=False):
+    """plain=True: the float64 twin (same numbers, default storage, canonical unit spelling)"""
     lentil = C.import_lentil()
-    return lentil.radiometry.Spectrum(np.array([fl(x) for x in sd['wave']], dtype=float),
-                                      np.array([fl(x) for x in sd['value']], dtype=float),
-                                      waveunit=sd['wu'], valueunit=sd['vu'])
+    if plain:
+        return lentil.radiometry.Spectrum(cast(sd['wave'], None), cast(sd['value'], None), waveunit=sd['wu'], valueunit=sd['vu'])
+    return lentil.radiometry.Spectrum(cast(sd['wave'], sd.get('wdt')), cast(sd['value'], sd.get('vdt')),
+                                      waveunit=sd.get('spell', sd['wu']), valueunit=sd['vu'])
+
+
+def is_plain(sd):
+    return sd.get('wdt') is None and sd.get('vdt') is None and sd.get('spell') is None
 
 
 def snap(s):
-    return [np.asarray(s.wave).tolist(), np.asarray(s.value).tolist(), s.waveunit, s.valueunit]
+    return [np.asarray(s.wave).tolist(), np.asarray(s.value).tolist(), s.waveunit, s.valueunit,
+            str(np.asarray(s.wave).dtype), str(np.asarray(s.value).dtype)]
 
 
 def res(r):
@@ -99,24 +117,41 @@ def res(r):
             'wu': r.waveunit, 'vu': r.valueunit, 'shape_ok': np.asarray(r.wave).shape == np.asarray(r.value).shape}
 
 
-def samp_arg(s, scale=None):
+def num_form(x, form):
+    """a number in one of the legal argument forms"""
+    x = F(x)
+    if form == 'int' and x.denominator == 1:
+        return int(x)
+    if form == 'npint64' and x.denominator == 1:
+        return np.int64(int(x))
+    if form == 'npfloat64':
+        return np.float64(float(x))
+    if form == 'npfloat32' and F(float(np.float32(float(x)))) == x:
+        return np.float32(float(x))
+    if form == 'arr0':
+        return np.array(float(x))
+    return float(x)
+
+
+def samp_arg(s, scale=None, form=None):
     if s in ('min', 'left', 'right'):
         return s
     v = F(s)
     if scale is not None:
         v = v * scale
-    return float(v)
+        return float(v)
+    return num_form(v, form if form != 'arr0' else None)
 
 
-def fill_arg(f):
-    return tuple(fl(x) for x in f) if isinstance(f, list) else fl(f)
+def fill_arg(f, form=None):
+    return tuple(num_form(x, form) for x in f) if isinstance(f, list) else num_form(f, form)
 
 
 def call_op(A, B, c, sampling=None):
     if c.get('call') == 'dunder':
         return PYOP[c['o']](A, B)
-    return getattr(A, METH[c['o']])(B, sampling=samp_arg(c['sampling']) if sampling is None else sampling,
-                                    method=c.get('method', 'linear'), fill_value=fill_arg(c['fill']))
+    return getattr(A, METH[c['o']])(B, sampling=samp_arg(c['sampling'], form=c.get('sform')) if sampling is None else sampling,
+                                    method=c.get('method', 'linear'), fill_value=fill_arg(c['fill'], c.get('fform')))
 
 
 def attempt(fn):
@@ -179,13 +214,19 @@ def run_impl_(c):
                     return call_op(A2, B2, c, sampling=samp_arg(c['sampling'], fac(c['a']['wu'], c['alt'][0])))
                 out['alt'] = attempt(alt)
                 out['unchanged'] = out['unchanged'] and (snap(A) == sa and snap(B) == sb)
+            # the float64 twin: same numbers in default storage, canonical unit names, plain float arguments
+            if not (is_plain(c['a']) and is_plain(c['b']) and not c.get('sform') and not c.get('fform')):
+                cp = {k: v for k, v in c.items() if k not in ('sform', 'fform')}
+                out['twin'] = attempt(lambda: call_op(mk(c['a'], plain=True), mk(c['b'], plain=True), cp))
             return out
+        if op == 'hist':
+            return run_history(c)
         if op == 'sample':
             S = mk(c['s'])
             ss = snap(S)
             try:
                 v = S.sample(np.array([fl(x) for x in c['at']], dtype=float), method='linear',
-                             fill_value=fill_arg(c['fill']), waveunit=c['unit'])
+                             fill_value=fill_arg(c['fill'], c.get('fform')), waveunit=c.get('uspell', c['unit']))
                 out = {'value': np.asarray(v, dtype=float).tolist()}
             except Exception as e:
                 out = {'err': type(e).__name__}
@@ -213,6 +254,47 @@ def run_impl_(c):
         return out
 
 
+def do_call(objs, call):
+    """one step of a history on live objects -> canonical result"""
+    k = call['k']
+    if k == 'to':
+        objs[call['i']].to(call['unit'])
+        return {'done': True}
+    if k == 'sample':
+        v = objs[call['i']].sample(np.array([fl(x) for x in call['at']], dtype=float), method='linear',
+                                   fill_value=fill_arg(call['fill']), waveunit=call['unit'])
+        return {'value': np.asarray(v, dtype=float).tolist()}
+    r = res(call_op(objs[call['i']], objs[call['j']], call))
+    r['new'] = True
+    return r
+
+
+def run_history(c):
+    """a sequence of calls on ONE set of live objects; every arithmetic / sample call is repeated on freshly built
+    objects (to which only the user's earlier .to() conversions were applied) - the two must agree exactly"""
+    def safe(fn):
+        try:
+            return fn()
+        except Exception as e:
+            return {'err': type(e).__name__}
+    objs = [mk(sd) for sd in c['specs']]
+    live, fresh, states = [], [], []
+    for n, call in enumerate(c['calls']):
+        before = [snap(o) for o in objs]
+        live.append(safe(lambda: do_call(objs, call)))
+        after = [snap(o) for o in objs]
+        states.append(call['k'] == 'to' or before == after)
+        if call['k'] == 'to':
+            fresh.append(None)
+            continue
+        fo = [mk(sd) for sd in c['specs']]
+        for prev in c['calls'][:n]:
+            if prev['k'] == 'to':
+                fo[prev['i']].to(prev['unit'])
+        fresh.append(safe(lambda: do_call(fo, call)))
+    return {'live': live, 'fresh': fresh, 'unchanged': all(states)}
+
+
 # ------------------------------------------------------------------ model side
 def enc_spec(sd):
     return ([UNITS.index(sd['wu']), VUNITS.index(sd['vu'])] + C.enc_list([F(x) for x in sd['wave']], C.enc_q)
@@ -229,10 +311,12 @@ def enc_fill(f):
 
 def encode(c):
     op = c['op']
+    if op == 'hist':
+        return None
     if op == 'spec':
         if c.get('method', 'linear') != 'linear':
             return None
-        return ([1, 1 if PAIR_FILL_FIXED else 0, OPS.index(c['o'])] + enc_sampling(c['sampling']) + enc_fill(c['fill'])
+        return ([1, OPS.index(c['o'])] + enc_sampling(c['sampling']) + enc_fill(c['fill'])
                 + enc_spec(c['a']) + enc_spec(c['b']))
     if op == 'scalar':
         return [2, int(c['refl']), OPS.index(c['o'])] + enc_spec(c['s']) + C.enc_q(F(c['c']))
@@ -500,10 +584,20 @@ def oracle(c, impl):
         if bad != ('err' in impl):
             return 'constructor accepted an ill-formed spectrum' if bad else f'constructor raised {impl["err"]}'
         return None
+    if op == 'hist':
+        for n, (lv, fr) in enumerate(zip(impl['live'], impl['fresh'])):
+            if fr is not None and not same_result(lv, fr):
+                return (f'call {n} of the history ({c["calls"][n]}) gives a different result than the same call on freshly '
+                        f'built operands: {str(lv)[:160]} vs {str(fr)[:160]}')
+        return None
     if op == 'spec':
         if c.get('method', 'linear') != 'linear':
             return None
         an = analyse(c)
+        if 'twin' in impl and not same_result(impl, impl['twin']):
+            return ('result depends on how the operands are stored / how the arguments are written (dtype, list vs array, '
+                    f'unit spelling, int vs float): {str({k: impl.get(k) for k in ("err", "wave", "value")})[:200]} vs float64 twin '
+                    f'{str({k: impl["twin"].get(k) for k in ("err", "wave", "value")})[:200]}')
         if an['undefined']:
             return None if 'err' in impl else 'sampling is undefined for a one-sample operand but a result was returned'
         if 'err' in impl:
@@ -517,14 +611,10 @@ def oracle(c, impl):
             return m
         if 'comm' in impl:
             cm = impl['comm']
-            if pair_refused(c, cm):
-                cm = None
-            elif 'err' in cm:
+            if 'err' in cm:
                 return f'commuted operation raised {cm["err"]}'
             same = c['a']['wu'] == c['b']['wu']
-            if cm is None:
-                pass
-            elif same and c['a']['vu'] == c['b']['vu']:
+            if same and c['a']['vu'] == c['b']['vu']:
                 if cm['wave'] != impl['wave'] or not all(x == y or (x != x and y != y) for x, y in zip(cm['value'], impl['value'])) \
                         or (cm['wu'], cm['vu']) != (impl['wu'], impl['vu']):
                     return f'{c["o"]} is not commutative: a.b and b.a differ'
@@ -534,8 +624,6 @@ def oracle(c, impl):
                     return m
         if 'alt' in impl:
             al = impl['alt']
-            if pair_refused(c, al):
-                return None
             if 'err' in al:
                 return f'operation on the unit-converted operands raised {al["err"]}'
             m = compare_rescaled(c, an, impl, al, fac(c['a']['wu'], c['alt'][0]), c['alt'][0], 'result in other units',
@@ -592,10 +680,17 @@ def oracle(c, impl):
     return None
 
 
-def pair_refused(c, r):
-    """secondary computations (commuted / other units): the refusal of a two-element fill value is the known finding
-    C13-fill-pair and is judged on the primary result only"""
-    return isinstance(c['fill'], list) and not PAIR_FILL_FIXED and r.get('err') == 'ValueError'
+def same_result(a, b):
+    """exact agreement of two canonical results (nan == nan)"""
+    if ('err' in a) or ('err' in b):
+        return a.get('err') == b.get('err')
+    for k in ('wave', 'value'):
+        if (k in a) != (k in b):
+            return False
+        if k in a:
+            if len(a[k]) != len(b[k]) or not all(x == y or (x != x and y != y) for x, y in zip(a[k], b[k])):
+                return False
+    return (a.get('wu'), a.get('vu')) == (b.get('wu'), b.get('vu'))
 
 
 def covariant_values(c):
@@ -646,10 +741,6 @@ def compare(c, impl, model):
     op = c['op']
     if 'err' in model and c.get('refl') and op in ('scalar', 'vector') and 'err' not in impl:
         return None     # a reflected form that works is judged by the oracle alone (the property does not pin TypeError)
-    if op == 'spec' and isinstance(c['fill'], list) and ('err' in impl) != ('err' in model) and not PAIR_FILL_FIXED:
-        an = analyse(c)
-        if not an.get('undefined') and an['near'] and not an['exact']:
-            return None    # two-point grid or not hinges on a ratio within 1e-9 of an integer (float conversion)
     if ('err' in impl) != ('err' in model):
         return (f'implementation {"raised " + impl["err"] if "err" in impl else "returned a value"}, '
                 f'model {"raised " + model["err"] if "err" in model else "returned a value"}')
@@ -836,6 +927,164 @@ def gen_spec(rng, tier):
     return c
 
 
+SPELL = {'m': ['meter', 'M', 'Meter'], 'um': ['micron', 'Um', 'MICRON'], 'nm': ['nanometer', 'NM', 'Nanometer'],
+         'angstrom': ['Angstrom', 'ANGSTROM']}
+MAXNUM = 4000
+
+
+def storage_choices(vals, density):
+    q = [F(x) for x in vals]
+    out = []
+    if all(x.denominator == 1 for x in q):
+        out += ['int64', 'int32', 'int16', 'pylist', 'pytuple']
+        if all(0 <= x <= 255 for x in q):
+            out.append('uint8')
+        if all(x in (0, 1) for x in q):
+            out.append('bool')
+    elif not density:
+        out.append('float32')       # a float32 density would be rescaled in single precision: genuinely storage dependent
+    return out
+
+
+def decorate(rng, c, p=0.3):
+    """vary HOW the same numbers are handed over: storage dtype / list / tuple of wave and value, unit spelling,
+    int / numpy-scalar / 0-d array forms of fill_value and sampling"""
+    for k in ('a', 'b'):
+        sd = c[k]
+        ch = storage_choices(sd['value'], sd['vu'] is not None)
+        if ch and rng.random() < p:
+            sd['vdt'] = rng.choice(ch)
+        if all(F(x).denominator == 1 for x in sd['wave']) and rng.random() < p:
+            sd['wdt'] = rng.choice(['int64', 'pylist', 'int32'])
+        if rng.random() < p / 2:
+            sd['spell'] = rng.choice(SPELL[sd['wu']])
+    if rng.random() < p:
+        c['fform'] = rng.choice(['int', 'npint64', 'npfloat64', 'npfloat32', 'arr0'])
+    if c['sampling'] not in ('min', 'left', 'right') and rng.random() < p:
+        c['sform'] = rng.choice(['int', 'npint64', 'npfloat64', 'npfloat32'])
+    if c.get('fform') or c.get('sform'):
+        c.pop('call', None)
+    return c
+
+
+def small_enough(c):
+    an = analyse(c)
+    return an.get('undefined') or an['num'] <= MAXNUM
+
+
+def gen_dtype(rng, tier):
+    """integer-stored operands (counts, percentages) with integer fill values, genuinely interpolated to non-integers"""
+    for _ in range(20):
+        w1, w2, rel = rnd_pair(rng, tier)
+        w1, w2 = [x * 4 for x in w1], [x * 4 for x in w2]
+        if rel in ('identical',) or not all(x.denominator == 1 for x in w1 + w2):
+            continue
+        if rng.random() < 0.5:
+            w1, w2 = w2, w1
+        o = rng.choice(OPS)
+        kind = rng.choice(['int', 'pos', 'bool'])
+        mkv = (lambda n: [F(rng.randint(0, 1)) for _ in range(n)]) if kind == 'bool' else (lambda n: rnd_values(rng, n, kind))
+        v1 = mkv(len(w1))
+        v2 = mkv(len(w2)) if rng.random() < 0.5 else rnd_values(rng, len(w2), 'dy')
+        if o == 'pow':
+            v2 = [F(rng.choice([0, 1, 2, 3]))] * len(w2)
+        fill = str(rng.choice([0, 0, 0, 1, 2, -1])) if rng.random() < 0.85 else [str(rng.choice([0, 1])), str(rng.choice([2, 3]))]
+        if rng.random() < 0.5:
+            v1, v2, w1, w2 = v2, v1, w2, w1
+        c = {'op': 'spec', 'o': o, 'a': spec_dict(w1, v1), 'b': spec_dict(w2, v2), 'sampling': rnd_sampling(rng, w1, w2),
+             'fill': fill, 'rel': rel}
+        if c['sampling'] == 'min' and fill == '0' and rng.random() < 0.5:
+            c['call'] = 'dunder'
+        decorate(rng, c, p=0.8)
+        if not isinstance(fill, list) and 'fform' not in c and 'call' not in c:
+            c['fform'] = 'int'
+        if small_enough(c):
+            return c
+    return gen_spec(rng, tier)
+
+
+def gen_samenum(rng, tier):
+    """operands whose wave ARRAYS hold the same numbers (or all but one) but in different units: physically different
+    bands.  Also the same-unit control."""
+    for _ in range(20):
+        n = rng.randint(2, 6)
+        d = F(2) ** rng.choice([-1, 0, 0, 1])
+        uniform = rng.random() < 0.75
+        start = F(rng.randint(1, 8)) * (F(1, 2) if rng.random() < 0.3 else 1)
+        w = [start + i * d for i in range(n)] if uniform else rnd_grid(rng, start, n, True, False)
+        ua, ub = rng.choice([('nm', 'angstrom'), ('angstrom', 'nm'), ('um', 'nm'), ('nm', 'um'), ('um', 'um'), ('m', 'um')])
+        w2 = list(w)
+        var = rng.choice(['same', 'same', 'same', 'onepoint', 'extra', 'shorter'])
+        if var == 'onepoint':
+            k = rng.randrange(n)
+            lo = w2[k - 1] if k > 0 else w2[k] / 2
+            hi = w2[k + 1] if k < n - 1 else w2[k] + d
+            cand = [x for x in ((w2[k] + lo) / 2, (w2[k] + hi) / 2) if lo < x < hi]
+            w2[k] = rng.choice(cand)
+        elif var == 'extra':
+            w2 = w2 + [w2[-1] + (w2[-1] - w2[-2])]
+        elif var == 'shorter' and n > 2:
+            w2 = w2[:-1]
+        o = rng.choice(OPS)
+        v1, v2 = rnd_values(rng, n, 'pos'), rnd_values(rng, len(w2), 'pos')
+        if o == 'pow':
+            v2 = [F(rng.choice([0, 1, 2]))] * len(w2)
+        fill = rng.choice(['0', '0', '1', '2'])
+        c = {'op': 'spec', 'o': o, 'a': spec_dict(w, v1, ua), 'b': spec_dict(w2, v2, ub),
+             'sampling': rng.choice(['min', 'min', 'left', 'right', str(d)]), 'fill': fill, 'rel': 'samenumbers:' + var}
+        if rng.random() < 0.5:
+            c['a'], c['b'] = c['b'], c['a']
+        if c['sampling'] == 'min' and fill == '0' and rng.random() < 0.4:
+            c['call'] = 'dunder'
+        if rng.random() < 0.3:
+            decorate(rng, c)
+        if small_enough(c):
+            return c
+    return gen_spec(rng, tier)
+
+
+def gen_hist(rng, tier):
+    """2-4 calls on one set of live spectra (arithmetic in both operand orders, sample(), user .to() conversions,
+    a spectrum combined with itself), one argument varied at a time"""
+    for _ in range(20):
+        w1, w2, rel = rnd_pair(rng, tier)
+        ua = rng.choice(['nm', 'um', 'angstrom'])
+        ub = rng.choice(['nm', 'um', 'angstrom'])
+        wb = to_unit_floats(w2, ua, ub) if ub != ua else w2
+        if any(y <= x for x, y in zip(wb, wb[1:])):
+            continue
+        vu = rng.choice([None, None, None, 'photlam'])
+        specs = [spec_dict(w1, rnd_values(rng, len(w1), 'pos'), ua, vu), spec_dict(wb, rnd_values(rng, len(wb), 'pos'), ub, vu)]
+        probe = {'op': 'spec', 'o': 'add', 'a': specs[0], 'b': specs[1], 'sampling': 'min', 'fill': '0'}
+        if not small_enough(probe) or analyse(probe).get('undefined'):
+            continue
+        base = {'o': rng.choice(['add', 'sub', 'mul', 'div']), 'sampling': rng.choice(['min', 'left', 'right']),
+                'fill': rng.choice(['0', '0', '1', '2'])}
+        calls = []
+        for _ in range(rng.randint(2, 4)):
+            t = rng.random()
+            if t < 0.6:
+                i, j = rng.choice([(0, 1), (1, 0), (0, 1), (1, 0), (0, 0), (1, 1)])
+                call = dict(base, k='op', i=i, j=j)
+                if calls and rng.random() < 0.5:      # vary exactly one argument with respect to the first arithmetic call
+                    key = rng.choice(['o', 'sampling', 'fill'])
+                    call[key] = {'o': rng.choice(['add', 'sub', 'mul', 'div']), 'sampling': rng.choice(['min', 'left', 'right']),
+                                 'fill': rng.choice(['0', '1', '2', '3'])}[key]
+                calls.append(call)
+            elif t < 0.8:
+                i = rng.randrange(2)
+                unit = rng.choice(['nm', 'um', 'angstrom'])
+                sd = specs[i]
+                pts = [F(x) * fac(sd['wu'], unit) for x in sd['wave']]
+                at = [F(float((x + y) / 2)) for x, y in zip(pts, pts[1:])] + [F(float(pts[0]))]
+                calls.append({'k': 'sample', 'i': i, 'at': [str(x) for x in at], 'unit': unit, 'fill': base['fill']})
+            else:
+                calls.append({'k': 'to', 'i': rng.randrange(2), 'unit': rng.choice(['nm', 'um', 'angstrom'])})
+        if sum(1 for x in calls if x['k'] != 'to') >= 2:
+            return {'op': 'hist', 'specs': specs, 'calls': calls}
+    return gen_spec(rng, tier)
+
+
 def gen_other(rng):
     n = rng.randint(1, 6)
     w = rnd_grid(rng, dy(rng, 1, 9, 2), n)
@@ -894,8 +1143,15 @@ def generate(rng, tier):
     n = 420 if tier == 'quick' else 6000
     for _ in range(n):
         t = rng.random()
-        if t < 0.70:
-            yield gen_spec(rng, tier)
+        if t < 0.45:
+            c = gen_spec(rng, tier)
+            yield decorate(rng, c, 0.15) if rng.random() < 0.3 else c
+        elif t < 0.56:
+            yield gen_dtype(rng, tier)
+        elif t < 0.64:
+            yield gen_samenum(rng, tier)
+        elif t < 0.72:
+            yield gen_hist(rng, tier)
         elif t < 0.90:
             yield gen_other(rng)
         elif t < 0.96:
@@ -908,11 +1164,18 @@ def classify(c):
     if c['op'] == 'spec':
         an = analyse(c)
         reg = 'undefined' if an.get('undefined') else ('exact' if an['exact'] else 'tolerant')
-        return f'spec:{c["o"]}:{reg}'
+        fam = 'samenumbers' if str(c.get('rel', '')).startswith('samenumbers') else ('storage' if is_storage_case(c) else c['o'])
+        return f'spec:{fam}:{reg}'
     return c['op']
 
 
+def is_storage_case(c):
+    return c['op'] == 'spec' and (not is_plain(c['a']) or not is_plain(c['b']) or c.get('fform') or c.get('sform'))
+
+
 def nontrivial(c):
+    if c['op'] == 'hist':
+        return True
     if c['op'] == 'spec':
         return not (c['a']['wave'] == c['b']['wave'] and c['a']['wu'] == c['b']['wu'])
     if c['op'] in ('scalar', 'vector'):
@@ -921,24 +1184,11 @@ def nontrivial(c):
 
 
 # ------------------------------------------------------------------ known findings
-def is_pair_fill_refusal(c, impl):
-    if c.get('op') != 'spec' or not isinstance(c.get('fill'), list) or impl.get('err') != 'ValueError':
-        return False
-    an = analyse(c)
-    return not an.get('undefined') and an['num'] != 1
-
-
 def known_match(f, c, impl):
-    if f['id'] == 'C13-fill-pair':
-        return is_pair_fill_refusal(c, impl)
     return False
 
 
 def replay_known(f):
-    if f['id'] == 'C13-fill-pair':
-        c = {'op': 'spec', 'o': 'add', 'a': spec_dict([1, 2, 3, 4], [1, 2, 3, 5]), 'b': spec_dict([2, 3, 4, 5, 6], [1, 1, 2, 2, 4]),
-             'sampling': 'min', 'fill': ['7', '9']}
-        return is_pair_fill_refusal(c, run_impl(c))
     if f['id'] == 'C13-float-sample-count':
         lentil = C.import_lentil()
         S = lentil.radiometry.Spectrum
